@@ -16,6 +16,10 @@ CLAIMS = {
     text='Lean 4 theorem roundtrip_struct (reader after writer = identity and consumes all text, for every struct type and every well-typed unambiguous value, with the text primitives proved rather than assumed) and the percent-encoding round trip; tied to the code by a differential run of the real to_string / from_bytes / QueryParams::iter against the writer and reader models, and of decoded texts against an independent RFC 3986 pair reader',
     note=TB + 'modelled not verified: serde derive visitor protocol, str::parse, from_utf8, percent_encoding (hand models; PrimsOK proved for them); floats outside the catalogue; known finding KF-C09-empty-ambiguity',
     technique='Lean 4 proof (round trip by induction over fields/values) + model/implementation correspondence'),
+ 'C13': dict(
+    text='Lean 4 theorem admit_iff (handler runs iff the Authorization value is "Basic " + canonical base64 of user:password of a configured pair) with the base64 round trip and canonicity proved; differential run of an application guarded by the real fang (single and array forms) against the model and against Python base64',
+    note=TB + 'modelled not verified: base64 0.22 STANDARD engine (hand model, canonical decoding; validated against Python base64 and the crate), from_utf8',
+    technique='Lean 4 proof (iff via base64 canonicity) + model/implementation correspondence'),
  'C20': dict(
     text='Lean 4 theorems for every timestamp <= 9999-12-31T23:59:59 and every usize (imf_fixdate_exact, itoa_exact, hexized_exact) about definitions TRANSLATED from time.rs / num.rs on every run; differential run of the real functions against the model and against an independent calendar over every 7th day (quick) or every day number (thorough)',
     note=TB + 'the rendering sequence of into_imf_fixdate is a hand model (validated on every day number in the thorough tier)',
